@@ -30,6 +30,7 @@ class SelfIn(QueuePolicy):
 
 def fw():
     f = Forward()
+    f.add_mapping(r'^c@y$', 'c@y')          # an exemption: the first matching rule wins even when it changes nothing
     f.add_mapping(r'^a@', 'z@')
     f.add_mapping(r'@y$', '@w')
     return f
